@@ -50,6 +50,8 @@ impl Story {
         variable_name: &str,
         value_type: &ValueType,
     ) -> Result<(), StoryError> {
+        self.if_async_we_cant("set a variable")?;
+
         let notify_observers = self
             .get_state_mut()
             .variables_state
